@@ -349,6 +349,23 @@ func parseRpmHeader(b []byte, off int) (*rpmHeader, error) {
 			Count: int(binary.BigEndian.Uint32(e[12:])),
 		})
 	}
+	// the sanity checks rpm itself applies to every index entry when it loads a header (lib/header.c headerVerifyInfo):
+	// a known type, a positive count, the alignment of the type, data inside the store
+	align := map[int]int{3: 2, 4: 4, 5: 8}
+	for _, en := range h.Entries {
+		if en.Type < 0 || en.Type > 9 {
+			return h, fmt.Errorf("rpm: tag %d has unknown type %d", en.Tag, en.Type)
+		}
+		if en.Count <= 0 {
+			return h, fmt.Errorf("rpm: tag %d has count %d (rpm rejects an index entry without data)", en.Tag, en.Count)
+		}
+		if a := align[en.Type]; a != 0 && en.Off%a != 0 {
+			return h, fmt.Errorf("rpm: tag %d (type %d) at unaligned offset %d", en.Tag, en.Type, en.Off)
+		}
+		if en.Off < 0 || en.Off > len(h.Store) {
+			return h, fmt.Errorf("rpm: tag %d offset %d outside the store (%d bytes)", en.Tag, en.Off, len(h.Store))
+		}
+	}
 	return h, nil
 }
 
